@@ -78,7 +78,7 @@ OPERANDS = [
     "(10 ** 400)", "(2 ** 2000)", "(-(10 ** 400))", "400", "-400", "1e3", "true", "false", "'s'", '"\\u00e9"', "''",
     "{1}", "{1, 2/3}", "{true}", "{'a'}", "{1}.count", "{1, 2}.max", "_offset_", "_offset_.min", "nothing", "ns.Leaf.1.0",
     "v", "max", "_extent_", "_bit_length_", '"\\U00110000"', '"\\U0010ffff"', '"\\Uffffffff"', "'\\ud800'", "ns.Leaf.1.0.v",
-    "ns.Leaf.1.0._extent_", "ns.Svc.1.0", "ns.Svc.1.0._extent_", "ns.Svc.1.0._bit_length_", "ns.Svc.1.0.K",
+    "ns.Leaf.1.0._extent_", "{{1, 2}, {1}}", "{{1}}", "{uint8}", "{ns.Leaf.1.0, uint8}", "{'a', 'b'}", "ns.Svc.1.0", "ns.Svc.1.0._extent_", "ns.Svc.1.0._bit_length_", "ns.Svc.1.0.K",
 ]
 UNOPS = ["+", "-", "!"]
 
@@ -109,7 +109,8 @@ def make_unary(sink: str):
     templates = {
         "print": "@print %s%s\n@sealed\n", "assert": "@assert %s%s\n@sealed\n", "const": "uint8 X = %s%s\n@sealed\n",
         "fconst": "float16 X = %s%s\n@sealed\n", "bconst": "bool X = %s%s\n@sealed\n", "cap": "uint8[%s%s] x\n@sealed\n",
-        "capi": "bool[<=%s%s] x\n@sealed\n", "extent": "uint8 x\n@extent %s%s\n", "attr": "@print (%s%s).max\n@sealed\n",
+        "capi": "bool[<=%s%s] x\n@sealed\n", "extent": "uint8 x\n@extent %s%s\n", "attr": "@print (%s%s).max\n@sealed\n", "attr-min": "@print (%s%s).min\n@sealed\n",
+        "attr-count": "@print (%s%s).count\n@sealed\n",
         "set": "@print {%s%s, 1}\n@sealed\n", "version": "ns.Leaf.%s%s.0 x\n@sealed\n",
         "ftype": "%s%s fx\n@sealed\n", "atype": "%s%s[2] fx\n@sealed\n", "vtype": "%s%s[<=2] fx\n@extent 8 * 1000\n",
         "utype": "@union\nuint8 a\n%s%s fx\n@sealed\n", "ctype": "%s%s CONST = 1\n@sealed\n",
@@ -401,7 +402,7 @@ def conditions(tier: str, seed: int) -> typing.List[Cond]:
                                      "1e-400, 10**400, 2**2000, booleans, strings, sets, attributes, identifiers, a type)"
                                      % len(OPERANDS)],
                         witness={"i": 4, "j": 8}, budget=1800.0, need_exhaust=True, key="key_c13"))
-    for sink in ["print", "assert", "const", "fconst", "bconst", "cap", "capi", "extent", "attr", "set", "version", "ftype",
+    for sink in ["print", "assert", "const", "fconst", "bconst", "cap", "capi", "extent", "attr", "attr-min", "attr-count", "set", "version", "ftype",
                  "atype", "vtype", "utype", "ctype"]:
         out.append(Cond(PROP, "c13.sinks", make_unary, {"sink": sink}, {"u": int, "i": int}, kind="choice",
                         assumptions=["unary form in {none, +, -, !} x operand spelling x value sink"],
